@@ -22,7 +22,7 @@ from ..report import Ctx
 from ..selftest import Mutant
 
 PROP = "C12"
-TECHNIQUE = "static analysis: entry-point x validator must-pass table over CFGs + USER_CALL/FS_WRITE/FS_DELETE effect summaries over the resolved call graph + joint branch-condition reachability on the cleanup=False path + uniqueness-of-parameters rejection rule + dominance of the surplus-keyword rejection over the evaluation in Pipeline.run + whole-operand rule for the output/parameter clash test (no narrowing)"
+TECHNIQUE = "static analysis: entry-point x validator must-pass table over CFGs + USER_CALL/FS_WRITE/FS_DELETE effect summaries over the resolved call graph + joint branch-condition reachability on the cleanup=False path + uniqueness-of-parameters rejection rule + dominance of the surplus-keyword rejection over the evaluation in Pipeline.run + whole-operand rule for the output/parameter clash test (no narrowing) + axes validator over every MapSpec"
 EXPLANATION = (
     "Static analysis over the resolved call graph, per-function CFGs and effect summaries: a table of (entry point, "
     "validator) pairs is checked by must-pass-through queries; USER_CALL effects must be unreachable from construction, "
